@@ -291,6 +291,8 @@ pub struct C06Stats {
     pub steps_with_fee: u64,
     pub crossings: u64,
     pub nonzero_protocol_cut: u64,
+    /// steps whose protocol share is non-zero while the LP share is below one ulp of the growth accumulator
+    pub cut_without_growth: u64,
 }
 
 pub fn c06_swap_oracle(pre: &Ledger, st: &Stepped, w: &StdWorld, a_to_b: bool, exact_in: bool, amount: u64, limit: u128, stats: &mut C06Stats) -> Result<(), String> {
@@ -342,6 +344,9 @@ pub fn c06_swap_oracle(pre: &Ledger, st: &Stepped, w: &StdWorld, a_to_b: bool, e
                     let g = ((bu(s.fee_amount as u128) - &cut) << 64) / bu(s.liquidity);
                     // growth accumulates modulo 2^128
                     let g128: u128 = to_u128(&(g % pow2(128))).unwrap();
+                    if g128 == 0 && !cut.is_zero() {
+                        stats.cut_without_growth += 1;
+                    }
                     growth = growth.wrapping_add(g128);
                 } else {
                     stats.zero_liquidity_steps += 1;
